@@ -43,7 +43,7 @@ ASSUMPTIONS = ['the mesh generator coordinate x0 (piecewise affine) and element 
                'geometry maps have |det| >= 0.75 on the domains used, so the tolerance 1e-10 x magnitude is four orders above round-off',
                'the orientation of the exterior normal of a manifold (normal(geom, refgeom)) is only required to be consistent over the topology and its refinements, not to follow a particular handedness',
                'curvature() and surface laplace on curved manifolds are not checked (no polynomial closed form)']
-BUDGET_S = {'quick': 2400, 'thorough': 6000}
+BUDGET_S = {'quick': 900, 'thorough': 3600}     # wall-clock guard only (VERIF_BUDGET_S overrides); ~110 s / ~12 min on 16 idle cores
 
 # measured CPU seconds per (refinement, map) over all sample kinds (used only to cut shards of similar cost)
 COST = {'line2': .9, 'rect21': 2.4, 'rect22': 2.5, 'per22': 2.5, 'tri2': 2.7, 'mix2': 2.8, 'box111': 3.8, 'box211': 3.9, 'tets6': 3.7,
